@@ -582,12 +582,19 @@ class Dump:
         self.consts = {}
         for m in re.finditer(r"^const ([A-Za-z_0-9:{}#]+): ([^=]+) = const (.*);$", text, re.M):
             self.consts[m.group(1)] = (m.group(2).strip(), m.group(3).strip())
+        # promoted constants are small bodies: `const F::promoted[k]: T = { ... }`
+        self.promoted = {}
+        for m in re.finditer(r"^const ([^\n]+?::promoted\[\d+\]): ([^\n]*?) = \{\n(.*?)\n\}$", text, re.M | re.S):
+            self.promoted[m.group(1)] = "fn %s() -> %s {\n%s\n}" % (m.group(1), m.group(2), m.group(3))
 
     def names(self):
         return list(self.raw.keys())
 
     def get(self, name):
         if name not in self.cache:
+            if name not in self.raw and name in getattr(self, "promoted", {}):
+                self.cache[name] = parse_function(self.promoted[name])
+                return self.cache[name]
             if name not in self.raw:
                 raise KeyError(name)
             self.cache[name] = parse_function(self.raw[name])
